@@ -458,6 +458,12 @@ def corpus():
         # a peer whose connection fails must not stop the others from being served
         {"n": 3, "skip": (2,), "ops": [["announce", 0, A], ["up", 0, 32], ["fail", 2], ["announce", 0, B], ["up", 0, 32],
                                           ["announce", 0, C], ["up", 0, 32], ["down", 1, 200]]},
+        # ... whatever its place in the server's table: healthy peers registered AFTER the broken one get every id as well
+        {"n": 3, "skip": (1,), "ops": [["announce", 0, A], ["up", 0, 32], ["fail", 1], ["announce", 0, B], ["up", 0, 32],
+                                          ["announce", 0, C], ["up", 0, 32], ["down", 2, 200]]},
+        {"n": 4, "skip": (1, 2), "ops": [["announce", 0, A], ["up", 0, 32], ["fail", 1], ["announce", 3, B], ["up", 3, 32], ["fail", 2],
+                                            ["announce", 0, C], ["up", 0, 32], ["announce", 3, D], ["up", 3, 32], ["down", 3, 200], ["down", 0, 200]]},
+        {"n": 3, "skip": (0,), "ops": [["fail", 0], ["announce", 1, A], ["up", 1, 32], ["announce", 1, B], ["up", 1, 32], ["down", 2, 200]]},
         # a connection registering while a handler is suspended in drain()
         {"n": 3, "suspend": True, "ops": [["announce", 0, A], ["announce", 0, B], ["announce", 0, C], ["announce", 1, D],
                                            ["upjoin", [[0, 96], [1, 32]], 3], ["down", 2, 200], ["down", 1, 200], ["down", 0, 200]]},
